@@ -918,3 +918,62 @@ def subst_captures(e, env):
     if e and e[0] == "param" and len(e) == 3 and e[2] == -1 and e[1] in env:
         return env[e[1]]
     return tuple(subst_captures(x, env) if isinstance(x, tuple) else x for x in e)
+
+
+# ---------------------------------------------------------------- bounds are compared on untruncated values
+def _narrow_nodes(ctx, fv, e, depth, seen):
+    """("narrow", from, to, inner) nodes in the derivation of expression e, looking into the return values of
+    in-program callees (depth-bounded)"""
+    out = []
+    for x in subexprs(e):
+        if x[0] == "narrow":
+            out.append((fv.b, x))
+        elif x[0] == "call" and depth > 0:
+            for d in ctx.prog.by_name.get(x[1], []):
+                cb = ctx.prog.bodies.get(d.id)
+                if cb is None or cb.d.id in seen or not cb.file or "/repo/" in cb.file and False:
+                    continue
+                cv = fnview(ctx, cb, policy=False).with_narrow()
+                if cv.single_def(0) is not None:
+                    out += _narrow_nodes(ctx, cv, cv.local_expr(0), depth - 1, seen | {cb.d.id})
+                    continue
+                # several return sites: every assignment of _0
+                for bi in cv.live_blocks():
+                    for st in cb.stmts(bi):
+                        if st.kind == "a" and st.place.local == 0 and not st.place.proj:
+                            if st.rv.op == "cast" and st.rv.a == "IntToInt":
+                                o = st.rv.ops[0]
+                                sty = cb.ty(o.place.local) if o.place is not None and not o.place.proj else None
+                                dty = cb._types[st.rv.extra] if isinstance(st.rv.extra, int) else None
+                                from .cfg import INT_WIDTH
+                                if sty in INT_WIDTH and dty in INT_WIDTH and INT_WIDTH[sty] > INT_WIDTH[dty]:
+                                    out.append((cb, ("narrow", sty, dty, cv.expr(o))))
+                            for o in st.rv.ops:
+                                out += _narrow_nodes(ctx, cv, cv.expr(o), depth - 1, seen | {cb.d.id})
+    return out
+
+
+def bound_comparisons_untruncated(ctx, rid, body, bound_pred, key, depth=2):
+    """every integer comparison in `body` one of whose sides mentions a policy bound (bound_pred on the rendering):
+    the other side's derivation contains no value-truncating integer cast.  Returns number of comparisons."""
+    fv = fnview(ctx, body).with_narrow()
+    b = body
+    n = 0
+    for bi in sorted(fv.live_blocks()):
+        for s in b.stmts(bi):
+            if s.kind != "a" or s.rv.op != "bin" or s.rv.a not in ("Gt", "Lt", "Ge", "Le", "Eq", "Ne"):
+                continue
+            l, r = fv.expr(s.rv.ops[0]), fv.expr(s.rv.ops[1])
+            rl, rr = render(l), render(r)
+            for bound, other, ro in ((rl, r, rr), (rr, l, rl)):
+                if not bound_pred(bound) or bound_pred(ro):
+                    continue
+                n += 1
+                bad = _narrow_nodes(ctx, fv, other, depth, {b.d.id})
+                where = f"{b.file}:{s.line}"
+                desc = "; ".join(f"`{render(x[3])[:70]}` {x[1]} -> {x[2]} in {bb.name.rsplit('::', 1)[-1]}" for bb, x in bad[:3])
+                ctx.ob(rid, not bad, f"{key}/{bound.rsplit('.', 1)[-1][:40]}/untruncated",
+                       f"`{b.name}` compares `{ro[:80]}` with the policy bound `{bound[:60]}`, but that value was truncated on the "
+                       f"way ({desc}): a large enough amount wraps around and passes the bound",
+                       where=where, sample=f"{ro[:50]} vs {bound[:40]}: no truncating cast")
+    return n
